@@ -513,8 +513,11 @@ def main():
     }
     if check_fault:
         ev["coverage"]["check_faults"] = check_fault
-    os.makedirs(os.path.join(ROOT, "evidence"), exist_ok=True)
-    json.dump(ev, open(os.path.join(ROOT, "evidence", pid + ".json"), "w"), indent=1)
+    # evidence is only ever written for runs against /repo itself; runs against a scratch tree (VERIF_REPO, used to
+    # try seeded changes) keep theirs under build/
+    evdir = os.path.join(ROOT, "evidence") if REPO == "/repo" else os.path.join(BUILD, "evidence-scratch")
+    os.makedirs(evdir, exist_ok=True)
+    json.dump(ev, open(os.path.join(evdir, pid + ".json"), "w"), indent=1)
 
     print("%s tier=%s seed=%d repo=%s: %d theorems, %d Qed in cone, %d suites, %d evaluations (%d distinct non-trivial), "
           "%d model/impl disagreements, %.1fs" % (pid, tier, seed, REPO, n_thm, n_qed, n_suites, evals, dn,
